@@ -1,7 +1,7 @@
 """Manifest metadata (tools/gen_manifest.py turns it into MANIFEST.json)."""
 HOOK_COMMITS = ['621a573', '7ae3ccb', 'fa7b761']
 ENGINES = [
-    dict(name='verus-extract', path='/verif/vlib', serves_properties=['C04', 'C05', 'C06', 'C08', 'C12', 'C13', 'C14', 'C15', 'C17', 'C20'],
+    dict(name='verus-extract', path='/verif/vlib', serves_properties=['C04', 'C05', 'C06', 'C08', 'C10', 'C12', 'C13', 'C14', 'C15', 'C17', 'C19', 'C20'],
          kind_free_text='Verus 0.2026.09.13 on functions extracted mechanically from /repo on every run, contracts injected from /verif/units/<unit>/unit.rs'),
     dict(name='kani-contracts', path='/verif/kani', serves_properties=['C01', 'C02', 'C03', 'C06', 'C07', 'C08', 'C10', 'C11', 'C15', 'C16', 'C17', 'C18', 'C19', 'C20'],
          kind_free_text='Kani 0.68 function contracts (proof_for_contract) and loop-free full-domain harnesses on the real crates of /repo (path dependencies), CBMC 6.11'),
@@ -39,8 +39,8 @@ CHECKS = {
     ),
     'C10': dict(
         engine='kani-contracts', category='model_checking',
-        technique='Kani per-N harnesses on the real macro-generated conversions (pointer identity, bounds, CBMC memory-leak check) and bounded harnesses for the in-place operations',
-        text='For each N the shared and mutable views are checked for a symbolic sub-slice (length L <= 3N+2) of symbolic contents: Some iff N | L, L/N frames in the very same memory, channel c of frame i is sample i*N+c, a write through the frame view lands in exactly that sample, and to_sample_slice/from_frame_slice is the exact inverse; boxed conversions reuse the allocation and leak nothing on success or failure (CBMC --memory-leak-check); in-place map/zip_map/write/equilibrium/add equal the element-wise frame operation for lengths 0..=4 and a length mismatch panics before any element is touched. Exhaustive in N (thorough tier), bounded in L: labelled model checking, not proof.',
+        technique='Kani per-N harnesses on the real macro-generated conversions (pointer identity, bounds, CBMC memory-leak check); Verus contracts (unit slice_inplace) for the two-slice in-place operations at every length; bounded Kani harnesses for map_in_place / equilibrium / the per-channel-gain variant',
+        text='For each N the shared and mutable views are checked for a symbolic sub-slice (length L <= 3N+2) of symbolic contents: Some iff N | L, L/N frames in the very same memory, channel c of frame i is sample i*N+c, a write through the frame view lands in exactly that sample, and to_sample_slice/from_frame_slice is the exact inverse; boxed conversions reuse the allocation and leak nothing on success or failure (CBMC --memory-leak-check); zip_map_in_place(_unchecked), write and add_in_place are PROVED (Verus, extracted text) to equal the element-wise frame operation for EVERY length and to return only for equal lengths; map_in_place, equilibrium and add_in_place_with_amp_per_channel equal it for lengths 0..=4 (Kani), and a length mismatch panics before any element is touched (Kani). Exhaustive in N (thorough tier), bounded in L: labelled model checking, not proof.',
         note='Bounded in slice length (the conversion code is loop-free and L enters only via %, /, *). Quick tier covers 11 (format, N) pairs; thorough all N = 1..=32 x {i16,u8,f32,I24}. In-place loops: lengths <= 4 only.',
     ),
     'C11': dict(
